@@ -3,15 +3,15 @@ open BHS.Props.C06
 #print axioms C06_linear
 #print axioms C06_checkpoint_cursor
 #print axioms C06_cursor_round
-#print axioms C06_disabled_unrequested
+#print axioms C06_unrequested_headers
 #print axioms C06_disabled_mode
 #print axioms C06_peer_loss
 #print axioms C06_announce
 #print axioms C06_announce_filtered
 #print axioms C06_announce_partial
+#print axioms C06_announce_after_answer
 #print axioms C06_tick_keeps_exhausted_peer
-#print axioms C06_tick_drops_passed_peer
 #print axioms C06_tick_keeps_passed_peer
+#print axioms C06_tick_drops_lagging_peer
 #print axioms exSetup
-#print axioms C06_linear_disabled_counterexample
 #print axioms C06_checkpoint_cursor_counterexample
